@@ -244,6 +244,7 @@ def main(argv):
                 rep['decided'] = False
                 rep['stub_contract'] = 'no path reached the assertion through the stub: the stubbed interface is no longer the one kernpy uses; obligation not applicable to this tree'
             elif (rep['confirmed'] < ob.min_confirmed and not any(r.get('cex') for r in good) and len(good) == len(shards)
+                    and all(r.get('exhausted') for r in good)      # a budget end is INCONCLUSIVE (reported as such), not a vacuous pass
                     and not any(c['obligation'] == ob.id for c in witness_cex)):
                 harness_errors.append(f"{ob.id}: only {rep['confirmed']} confirmed paths, expected >= {ob.min_confirmed} (vacuity guard)")
             for r in good:
